@@ -106,6 +106,11 @@ check("C18", "property test against a reference model: generated constant values
       "References are generated at the top level of an initialiser only; modules the transpiler declines with a diagnostic are counted, not judged.",
       "DESIGN.md §3 C18")
 
+check("C33", "property test against a reference model of first-match semantics: generated match expressions run on every value of a sampled domain",
+      "`f(x: T) = match x: arms` for T among Int, Nat, Str, Bool, integer/string enums, intervals and `Int or Str`, with 1-5 arms (literals, type-annotated variables, interval patterns, wildcard) in random order, is compiled and called on every sample value; for an accepted program the model must have a matching arm for every value, the run must not raise, and the arm executed must be one whose pattern contains the value.",
+      "Rejections (incompleteness of the exhaustiveness check) are counted, not judged; sample domains are small (all enum members, every integer of an interval, representative others).",
+      "DESIGN.md §3 C33")
+
 NOT_APPLICABLE = {}
 
 def main():
